@@ -66,6 +66,24 @@ def pmap(fn: T.Callable, items: T.Iterable, jobs: int = 0, chunksize: int = 1, i
             yield r
 
 
+def hard_exit(code: int) -> T.NoReturn:
+    """Leave without unwinding (unwinding out of a `for ... in pmap(...)` loop finalises the generator, whose
+    Pool.terminate() can deadlock with busy workers); scratch is removed by hand."""
+    try:
+        sys.stdout.flush()
+        sys.stderr.flush()
+    except Exception:
+        pass
+    if _scratch is not None:
+        shutil.rmtree(_scratch, ignore_errors=True)
+    try:
+        for ch in mp.active_children():
+            ch.kill()
+    except Exception:
+        pass
+    os._exit(code)
+
+
 class InternalError(Exception):
     """The check itself is broken (nondeterminism, vacuity, harness failure): exit 2, never a verdict."""
 
@@ -185,7 +203,7 @@ class Check:
 
     def internal(self, msg: str) -> T.NoReturn:
         print('INTERNAL-ERROR property=%s %s' % (self.pid, msg), file=sys.stderr, flush=True)
-        sys.exit(2)
+        hard_exit(2)
 
     def require(self, cond: bool, msg: str) -> None:
         """Anti-vacuity assertion: failing it is an internal error of the check, not a verdict."""
@@ -230,8 +248,8 @@ def run_main(fn: T.Callable[[], None]) -> None:
         raise
     except InternalError as e:
         print('INTERNAL-ERROR ' + str(e), file=sys.stderr)
-        sys.exit(2)
+        hard_exit(2)
     except BaseException:
         traceback.print_exc()
         print('INTERNAL-ERROR unexpected exception in check', file=sys.stderr)
-        sys.exit(2)
+        hard_exit(2)
